@@ -18,9 +18,15 @@ Pref(C, x, p) ==
 Rel(c, x, y) == LET a == BIdx(c, x)  b == BIdx(c, y) IN
                 IF a < b THEN "before" ELSE IF a > b THEN "after" ELSE "tie"
 
-\* the preferences cohere: they are exactly the pairwise placements of one ranking with ties
-CoherentRankings(C, U) == {c \in AllBucketOrders(U) : \A x, y \in U : x # y => Rel(c, x, y) = Pref(C, x, y)}
-Coherent(C, U) == CoherentRankings(C, U) # {}
+\* the preferences cohere: they are exactly the pairwise placements of one ranking with ties.
+\* Definition by enumeration (small universes) ...
+CoherentRankingsEnum(C, U) == {c \in AllBucketOrders(U) : \A x, y \in U : x # y => Rel(c, x, y) = Pref(C, x, y)}
+\* ... and constructively (any size): if such a ranking exists, an element's bucket is determined by the number of
+\* elements preferred before it.  Theorem CoherentDefsAgree (KwikSort.tla) says the two definitions coincide.
+CoherentCandidate(C, U) ==
+    FromKey([x \in U |-> Cardinality({y \in U \ {x} : Pref(C, y, x) = "before"})])
+Coherent(C, U) == LET c == CoherentCandidate(C, U) IN \A x, y \in U : x # y => Rel(c, x, y) = Pref(C, x, y)
+CoherentRankings(C, U) == IF Coherent(C, U) THEN {CoherentCandidate(C, U)} ELSE {}
 
 \* one partition step: the three groups around pivot p in group G
 Before(C, G, p) == {x \in G \ {p} : Pref(C, x, p) = "before"}
